@@ -7,70 +7,76 @@ EXTENDS TraceKit, UploadsContract
 
 PeerIds == 1..8
 ChunkIds == 1..16
-PK == PeerIds \X ChunkIds
 
 VARIABLES l, viol, poisoned,
           maxPar, perPeer, uto,   \* configuration of the behaviour (uto in ms; <= 0: uploads never time out)
-          exp,                    \* [ChunkIds -> ms] expiry of the chunk stored on the node (-1: never stored)
-          loose,                  \* [PK -> ms | -1] time of the latest chunk frame not followed by an ack
-          strict,                 \* [PK -> Seq(ms)] chunk frames not acknowledged one-for-one and not timed out
+          exp,                    \* set of <<chunk, ms>>: expiry of the chunks stored on the node
+          loose,                  \* set of <<p, c, ms>>: latest chunk frame of (p, c) not followed by an ack, not timed out
+          strict,                 \* Seq(<<p, c, ms>>): chunk frames not acknowledged one-for-one and not timed out, in send order
           stats
 vars == <<l, viol, poisoned, maxPar, perPeer, uto, exp, loose, strict, stats>>
 
 Stats0 == [sends |-> 0, dupsends |-> 0, nakdue |-> 0, releasechecks |-> 0, releasedue |-> 0, atlimit |-> 0]
 Init == /\ l = 1 /\ viol = <<>> /\ poisoned = FALSE
         /\ maxPar = 0 /\ perPeer = 0 /\ uto = 0
-        /\ exp = [c \in ChunkIds |-> -1]
-        /\ loose = [k \in PK |-> -1] /\ strict = [k \in PK |-> <<>>]
+        /\ exp = {} /\ loose = {} /\ strict = <<>>
         /\ stats = Stats0
 
-Rows(x) == LET a == Arr(x) IN [i \in DOMAIN a |-> a[i]]
 \* chunk frames of the event, in order: sequence of <<p, c>>
-ChunkSends(e) == LET fr == Arr(e.fr) IN SelectSeq([i \in DOMAIN fr |-> <<fr[i][1], fr[i][3], fr[i][2]>>], LAMBDA f : f[3] = 1 /\ f[1] \in PeerIds /\ f[2] \in ChunkIds)
+ChunkSends(e) == LET fr == Arr(e.fr) IN SelectSeq([i \in DOMAIN fr |-> <<fr[i][1], fr[i][3], fr[i][2]>>], LAMBDA f : f[3] = 1)
 NakSent(e, p, c) == \E i \in DOMAIN Arr(e.fr) : e.fr[i][1] = p /\ e.fr[i][2] = 2 /\ e.fr[i][3] = c /\ e.fr[i][4] = 0
-InUse(e) == [p \in PeerIds |-> IF \E i \in DOMAIN Arr(e.per) : e.per[i][1] = p /\ e.per[i][2] # 0 THEN 1 ELSE 0]
+InUsePeers(e) == {e.per[i][1] : i \in {j \in DOMAIN Arr(e.per) : e.per[j][2] # 0}}
 TimedOutLoose(t0, now) == uto > 0 /\ now - t0 >= uto      \* limit side: at the time-out the upload no longer runs
 TimedOutStrict(t0, now) == uto > 0 /\ now - t0 > uto      \* release side: only strictly after it
+IsKey(x, p, c) == x[1] = p /\ x[2] = c
+RemoveFirst(sq, p, c) ==
+    IF \E i \in DOMAIN sq : IsKey(sq[i], p, c)
+      THEN LET i == CHOOSE j \in DOMAIN sq : IsKey(sq[j], p, c) /\ \A m \in 1..(j - 1) : ~IsKey(sq[m], p, c)
+           IN SubSeq(sq, 1, i - 1) \o SubSeq(sq, i + 1, Len(sq))
+      ELSE sq
 
-RECURSIVE ApplySends(_, _, _, _)
-ApplySends(lo, sr, snd, now) ==
-    IF snd = <<>> THEN [lo |-> lo, sr |-> sr]
-    ELSE LET k == <<Head(snd)[1], Head(snd)[2]>> IN
-         ApplySends([lo EXCEPT ![k] = now], [sr EXCEPT ![k] = Append(@, now)], Tail(snd), now)
+RECURSIVE ApplySends(_, _, _, _, _)
+ApplySends(lo, sr, snd, now, dups) ==
+    IF snd = <<>> THEN [lo |-> lo, sr |-> sr, dups |-> dups]
+    ELSE LET p == Head(snd)[1]
+             c == Head(snd)[2] IN
+         ApplySends({x \in lo : ~IsKey(x, p, c)} \cup {<<p, c, now>>}, Append(sr, <<p, c, now>>), Tail(snd), now,
+                    dups + (IF \E i \in DOMAIN sr : IsKey(sr[i], p, c) THEN 1 ELSE 0))
 
 Step(e) ==
   CASE e.op = "reset" ->
         /\ maxPar' = e.maxpar /\ perPeer' = e.perpeer /\ uto' = e.uto * 1000
-        /\ exp' = [c \in ChunkIds |-> -1] /\ loose' = [k \in PK |-> -1] /\ strict' = [k \in PK |-> <<>>]
+        /\ exp' = {} /\ loose' = {} /\ strict' = <<>>
         /\ poisoned' = FALSE /\ UNCHANGED <<viol, stats>>
     [] poisoned -> UNCHANGED <<viol, poisoned, maxPar, perPeer, uto, exp, loose, strict, stats>>
     [] OTHER ->
         LET now == e.t
-            isAck == e.op = "ack" /\ e.p \in PeerIds /\ e.c \in ChunkIds
-            lo0 == IF isAck THEN [loose EXCEPT ![<<e.p, e.c>>] = -1] ELSE loose
-            sr0 == IF isAck THEN [strict EXCEPT ![<<e.p, e.c>>] = IF @ = <<>> THEN @ ELSE Tail(@)] ELSE strict
+            isAck == e.op = "ack"
+            lo0 == IF isAck THEN {x \in loose : ~IsKey(x, e.p, e.c)} ELSE loose
+            sr0 == IF isAck THEN RemoveFirst(strict, e.p, e.c) ELSE strict
             snd == IF Has(e, "fr") THEN ChunkSends(e) ELSE <<>>
-            g == ApplySends(lo0, sr0, snd, now)
-            sr1 == [k \in PK |-> SelectSeq(g.sr[k], LAMBDA t0 : ~TimedOutStrict(t0, now))]
-            run == {k \in PK : g.lo[k] >= 0 /\ ~TimedOutLoose(g.lo[k], now)}
-            busy == {k[1] : k \in {j \in PK : sr1[j] # <<>>}}
-            exp1 == IF e.op = "store" /\ e.c \in ChunkIds THEN [exp EXCEPT ![e.c] = e.exp] ELSE exp
-            nakDue == e.op = "req" /\ e.p \in PeerIds /\ e.c \in ChunkIds /\ e.key = 1
-                      /\ (exp[e.c] < 0 \/ now >= exp[e.c]) /\ e.p \in ArrSet(Arr(e.sess))
+            g == ApplySends(lo0, sr0, snd, now, 0)
+            lo1 == {x \in g.lo : ~TimedOutLoose(x[3], now)}
+            sr1 == SelectSeq(g.sr, LAMBDA x : ~TimedOutStrict(x[3], now))
+            run == {<<x[1], x[2]>> : x \in lo1}
+            busy == {sr1[i][1] : i \in DOMAIN sr1}
+            exp1 == IF e.op = "store" THEN {x \in exp : x[1] # e.c} \cup {<<e.c, e.exp>>} ELSE exp
+            nakDue == e.op = "req" /\ e.key = 1 /\ e.p \in ArrSet(Arr(e.sess))
+                      /\ ~\E x \in exp : x[1] = e.c /\ now < x[2]
             relCheck == e.op \in {"ack", "tick"}
-            leaking == IF relCheck THEN Leaking(busy, InUse(e), PeerIds) ELSE {}
+            leaking == IF relCheck THEN Leaking(busy, [p \in PeerIds |-> IF p \in InUsePeers(e) THEN 1 ELSE 0], PeerIds) ELSE {}
             bad == (IF snd = <<>> \/ OverallOk(run, maxPar) THEN {} ELSE {"C23.limit-overall"})
                    \cup (IF snd = <<>> \/ PerPeerOk(run, perPeer) THEN {} ELSE {"C23.limit-per-peer"})
                    \cup (IF nakDue /\ ~NakOk(TRUE, FALSE, NakSent(e, e.p, e.c)) THEN {"C23.nak-missing"} ELSE {})
                    \cup (IF leaking = {} THEN {} ELSE {"C23.slot-leak"})
-        IN /\ loose' = g.lo /\ strict' = sr1 /\ exp' = exp1
+        IN /\ loose' = lo1 /\ strict' = sr1 /\ exp' = exp1
            /\ viol' = IF bad = {} THEN viol ELSE Append(viol, Fail(l, bad, e))
            /\ poisoned' = (bad # {})
            /\ stats' = [stats EXCEPT !.sends = @ + Len(snd),
-                                     !.dupsends = @ + Cardinality({k \in PK : Len(sr1[k]) >= 2 /\ Len(strict[k]) < 2}),
+                                     !.dupsends = @ + g.dups,
                                      !.nakdue = @ + (IF nakDue THEN 1 ELSE 0),
                                      !.releasechecks = @ + (IF relCheck THEN 1 ELSE 0),
-                                     !.releasedue = @ + (IF relCheck /\ busy # {k[1] : k \in {j \in PK : strict[j] # <<>>}} THEN 1 ELSE 0),
+                                     !.releasedue = @ + (IF relCheck /\ busy # {strict[i][1] : i \in DOMAIN strict} THEN 1 ELSE 0),
                                      !.atlimit = @ + (IF snd # <<>> /\ maxPar # 0 /\ Cardinality(run) = maxPar THEN 1 ELSE 0)]
            /\ UNCHANGED <<maxPar, perPeer, uto>>
 
